@@ -8,7 +8,7 @@
    Statements only; proofs in Choice.v, KllUnbiased.v, KllUnbiasedRun.v.
    NOT claimed: "within the published error at least as often as claimed" (statistical clause of C08). *)
 From Coq Require Import ZArith List Bool Lia.
-From DS Require Import RunnerLib SortedView KllDefs KllProofs KllSpace KllView KllUnbiased KllUnbiasedRun.
+From DS Require Import RunnerLib SortedView KllDefs KllProofs KllSpace KllView KllUnbiased KllUnbiasedRun KllMinK.
 Import ListNotations.
 Local Open Scope Z_scope.
 
@@ -98,6 +98,33 @@ Example C08_kll_nonvacuous :
   msum (fun s => rank_of s 0 52 true) (mrun demo) = 928 /\ msum (fun s => rank_of s 0 52 false) (mrun demo) = 896.
 Proof. vm_compute. repeat split; reflexivity. Qed.
 
+(* ---------- the error the sketch publishes, also after merging: get_normalized_rank_error() is a function of min_k_ ----------
+   For every merge tree (hist: fresh sketch / update / query / merge of the outcomes of two histories, any k) and every
+   coin outcome: k is the k of the root and min_k is the recursive specification mk_spec - the minimum of the sketch's own
+   k and, transitively, of the min_k of every operand that was in estimation mode when merged in - and 8 <= min_k <= k. *)
+Theorem C08_kll_min_k_spec : forall h s, hist_ok h -> leaf (hrun h) s ->
+  kk s = kof h /\ min_k s = mk_spec h /\ 8 <= min_k s <= kk s.
+Proof. exact min_k_spec. Qed.
+
+(* whether an operand is in estimation mode is fixed by its history (not by the coins), so mk_spec is well defined *)
+Theorem C08_kll_estimation_mode_fixed_by_history : forall h s, leaf (hrun h) s -> est_mode s = est h.
+Proof. exact est_fixed. Qed.
+
+(* every reachable sketch (hence every register of every outcome of every script, C08_kll_outcomes_follow_spec) is the
+   outcome of such a history tree *)
+Theorem C08_kll_reachable_has_history : forall s log, reach s log -> exists h, hist_ok h /\ leaf (hrun h) s.
+Proof. exact reach_has_history. Qed.
+
+(* non-vacuity: B (k = 8, 12 updates: estimation mode) merged into A (k = 20), A merged into C (k = 16):
+   min_k of C is 8, not the k = 20 of its direct operand (the seeded change C08-1 gives 16) *)
+Definition tree_b : hist := fold_left (fun h i => HUpd h (Z.of_nat i)) (seq 0 12) (HNew 8).
+Definition tree_a : hist := HMrg (HUpd (HUpd (HNew 20) 100) 101) tree_b.
+Definition tree_c : hist := HMrg (HUpd (HNew 16) 200) tree_a.
+Example C08_kll_min_k_nonvacuous :
+  est tree_b = true /\ est tree_a = true /\ mk_spec tree_a = 8 /\ kof tree_a = 20 /\ mk_spec tree_c = 8 /\ kof tree_c = 16 /\
+  min_k (first (hrun tree_c)) = 8 /\ hist_ok tree_c.
+Proof. vm_compute. repeat split; try reflexivity; discriminate. Qed.
+
 Print Assumptions C08_kll_unbiased.
 Print Assumptions C08_kll_unbiased_enumerated.
 Print Assumptions C08_kll_flips_independent_of_outcomes.
@@ -109,3 +136,6 @@ Print Assumptions C08_kll_compaction_pair.
 Print Assumptions C08_kll_update_unbiased.
 Print Assumptions C08_kll_merge_unbiased.
 Print Assumptions C08_kll_flips_depend_on_shape_only.
+Print Assumptions C08_kll_min_k_spec.
+Print Assumptions C08_kll_estimation_mode_fixed_by_history.
+Print Assumptions C08_kll_reachable_has_history.
